@@ -196,14 +196,14 @@ func rtPart(run *harness.Run, scenario string, quickCases, thoroughCases int, fl
 		}
 	}
 	ev := map[string]interface{}{
-		"rt_scenario":            scenario,
-		"rt_cases":               len(out.results),
-		"rt_counters":            out.stats,
-		"rt_race_reports":        out.races,
-		"rt_race_report_keys":    out.raceDesc,
-		"rt_recovered_panics":    out.panics,
-		"rt_children_aborted":    out.aborted,
-		"rt_samples":             rtSamples(out, 3),
+		"rt_scenario":         scenario,
+		"rt_cases":            len(out.results),
+		"rt_counters":         out.stats,
+		"rt_race_reports":     out.races,
+		"rt_race_report_keys": out.raceDesc,
+		"rt_recovered_panics": out.panics,
+		"rt_children_aborted": out.aborted,
+		"rt_samples":          rtSamples(out, 3),
 	}
 	for k, v := range perKey {
 		ev["rt_cases_with_"+k] = v
